@@ -268,45 +268,54 @@ func c16r4(p *Program, r *Report) {
 		}, nil, nil)
 	}
 	if fi := r.NeedFunc("(*Session).handleNodeDown"); fi != nil {
-		info := fi.Pkg.TypesInfo
-		found := false
-		ast.Inspect(fi.Decl.Body, func(n ast.Node) bool {
-			ifs, ok := n.(*ast.IfStmt)
-			if !ok {
-				return true
+		// on every path where the host is known: marked down; and unless it is filtered out: policy told, pool removed
+		tr := newReadTracer(p)
+		tr.prims = map[string]string{"(*HostInfo).setState": "setState", "HostSelectionPolicy.HostDown": "hostDown", "HostStateNotifier.HostDown": "hostDown", "(*policyConnPool).removeHost": "removePool"}
+		tr.noAuto = func(string) bool { return true }
+		for _, c := range p.privateCallees(fi) {
+			if c.Pkg == p.Root && !strings.HasPrefix(c.Name, "(*ring)") && !strings.HasPrefix(c.Name, "(*policyConnPool)") && !strings.HasPrefix(c.Name, "(*HostInfo)") {
+				tr.inline[c.Name] = true
 			}
-			if id, isId := ast.Unparen(ifs.Cond).(*ast.Ident); !isId || id.Name != "ok" {
-				return true
-			}
-			found = true
-			// unconditional (top-level) calls of the known-host branch
-			top := map[string]bool{}
-			for _, st := range ifs.Body.List {
-				if _, isIf := st.(*ast.IfStmt); isIf {
-					continue
+		}
+		nKnown := 0
+		miss := map[string]*pathState{}
+		for _, st := range tr.run(fi, 4) {
+			known, filtered, filterSeen := false, false, false
+			for k, v := range st.assume {
+				if k == "ok" && v {
+					known = true
 				}
-				for _, c := range callsIn(st) {
-					top[calleeName(info, c)] = true
+				if strings.HasSuffix(k, ".filterHost(host)") {
+					filtered, filterSeen = v, true
 				}
 			}
-			for _, w := range []struct {
-				what  string
-				names []string
-			}{
-				{"marks the host down", []string{"(*HostInfo).setState"}},
-				{"notifies the selection policy", []string{"HostSelectionPolicy.HostDown", "HostStateNotifier.HostDown"}},
-				{"removes the host's pool", []string{"(*policyConnPool).removeHost"}},
-			} {
-				ok := false
-				for _, nme := range w.names {
-					ok = ok || top[nme]
-				}
-				r.Check(ok, ifs, "(*Session).handleNodeDown "+w.what, "unconditionally for a known host", "for a known host handleNodeDown no longer "+w.what+": a node reported down keeps being offered for queries")
+			if !known {
+				continue
 			}
-			return false
-		})
-		if !found {
-			r.Unresolved("handleNodeDown: no `if ok` branch for a known host")
+			nKnown++
+			has := map[string]bool{}
+			for _, it := range flat(st.trace) {
+				has[it.Prim] = true
+			}
+			if !has["setState"] {
+				miss["marks the host down"] = st
+			}
+			if !filtered || !filterSeen {
+				if !has["hostDown"] {
+					miss["notifies the selection policy"] = st
+				}
+				if !has["removePool"] {
+					miss["removes the host's pool"] = st
+				}
+			}
+		}
+		if nKnown == 0 {
+			r.Unresolved("handleNodeDown: no path for a known host (no `ok` test of the ring lookup)")
+		} else {
+			for _, what := range []string{"marks the host down", "notifies the selection policy", "removes the host's pool"} {
+				st := miss[what]
+				r.Check(st == nil, fi.Decl, "(*Session).handleNodeDown "+what, "on every path for a known, unfiltered host", "for a known host handleNodeDown no longer "+what+ifs(st != nil, " on path ["+assumeStrOf(st)+"]", "")+": a node reported down keeps being offered for queries")
+			}
 		}
 	}
 	// refreshRing: leftover hosts are removed
@@ -455,43 +464,58 @@ func c16r7(p *Program, r *Report) {
 	if fi == nil {
 		return
 	}
-	info := fi.Pkg.TypesInfo
-	found := false
-	ast.Inspect(fi.Decl.Body, func(x ast.Node) bool {
-		cc, ok := x.(*ast.CaseClause)
-		if !ok || len(cc.List) != 1 || !strings.HasSuffix(exprStr(cc.List[0]), "statusChangeEventFrame") {
-			return true
+	// every path through the *statusChangeEventFrame clause stores the frame's status for its address: into the
+	// pending event of that address, or into a new one
+	tr := newReadTracer(p)
+	tr.prims = map[string]string{}
+	tr.noAuto = func(string) bool { return true }
+	tr.trackField = "change"
+	tr.markTypeCases = true
+	found, records := false, true
+	var bad *pathState
+	for _, st := range tr.run(fi, 4) {
+		var walk func(ts []TraceItem, in bool) (bool, bool)
+		walk = func(ts []TraceItem, in bool) (entered, stored bool) {
+			for _, it := range ts {
+				switch it.Prim {
+				case "typecase":
+					in = strings.HasSuffix(it.Arg, "statusChangeEventFrame")
+					if in {
+						entered = true
+					}
+				case "field":
+					if in && strings.HasSuffix(exprStr(it.Expr), ".change") {
+						stored = true
+					}
+				case "loop":
+					e, s2 := walk(it.Body, in)
+					entered = entered || e
+					stored = stored || s2
+				}
+			}
+			return
+		}
+		entered, stored := walk(st.trace, false)
+		if !entered {
+			continue
 		}
 		found = true
-		// an unconditional (top-level) statement of the case body must record the frame's status
-		records := false
-		for _, st := range cc.Body {
-			as, ok := st.(*ast.AssignStmt)
-			if !ok {
-				continue
-			}
-			for i, l := range as.Lhs {
-				if i >= len(as.Rhs) {
-					continue
-				}
-				if sel, ok := ast.Unparen(l).(*ast.SelectorExpr); ok && sel.Sel.Name == "change" && strings.HasSuffix(exprStr(as.Rhs[i]), ".change") {
-					records = true
-				}
-				if _, ok := ast.Unparen(l).(*ast.IndexExpr); ok {
-					ast.Inspect(as.Rhs[i], func(m ast.Node) bool {
-						if kv, ok := m.(*ast.KeyValueExpr); ok && exprStr(kv.Key) == "change" && strings.HasSuffix(exprStr(kv.Value), ".change") {
-							records = true
-						}
-						return true
-					})
-				}
-			}
+		if !stored {
+			records, bad = false, st
 		}
-		_ = info
-		r.Check(records, cc, "(*Session).handleNodeEvent keeps the last status per address", "every status frame overwrites the pending status of its address",
-			"a later status event for an address does not replace the earlier one in the same batch: after DOWN then UP within one debounce window the node stays down (or a down node stays in rotation)")
-		return true
-	})
+	}
+	if len(tr.unsup) > 0 {
+		r.Unresolved("handleNodeEvent: %s", strings.Join(tr.unsup, "; "))
+		return
+	}
+	why := ""
+	if bad != nil {
+		why = " (path: " + assumeStr(bad) + ")"
+	}
+	if found {
+		r.Check(records, fi.Decl, "(*Session).handleNodeEvent keeps the last status per address", "every status frame overwrites the pending status of its address",
+			"a later status event for an address does not replace the earlier one in the same batch"+why+": after DOWN then UP within one debounce window the node stays down (or a down node stays in rotation)")
+	}
 	if !found {
 		r.Unresolved("handleNodeEvent: no case for *statusChangeEventFrame")
 	}
@@ -519,4 +543,11 @@ func c16r8(p *Program, r *Report) {
 		r.Check(!bad, fi.Decl, name+" never panics on an unexpected frame", "no panic, no bare type assertion", name+" panics or uses a bare type assertion on event frames: an unexpected event takes the process down")
 	}
 	_ = token.NoPos
+}
+
+func assumeStrOf(st *pathState) string {
+	if st == nil {
+		return ""
+	}
+	return assumeStr(st)
 }
